@@ -4,6 +4,6 @@ From LV Require Import Dec.CliInit Dec.RefEnc Dec.RefEncZ.
 Require Import ExtrOcamlBasic.
 Extraction Language OCaml.
 Extraction "../build/ocaml/C07/model.ml"
-  init_state init_out step clr_log load_fb set_fix c_w c_h c_fb c_ev c_out c_taint c_fmt
+  init_state init_out step clr_log load_fb set_fix api_ext_size c_w c_h c_fb c_ev c_out c_taint c_fmt
   ref_raw ref_copyrect ref_rre ref_corre ref_hextile rect_header fbu_header
   ref_zlib ref_ultra ref_zrle ref_trle ref_tight toks.
